@@ -10,12 +10,7 @@ BASELINE_CMD = ("cd /repo && /venv/bin/python -m pytest -ra -q -p no:cacheprovid
 
 # id -> (category, technique, text, level_note, design_ref)
 CHECKS = {}
-NOT_APPLICABLE = {
-    "C01": "Round-trip equality quantifies over runtime values of composed codecs (what a dumper emits for a value and what "
-           "the loader makes of it); the structural ingredients in reach are reported under other properties (C03: loader "
-           "and dumper of one layout use the same path per field; C18: enum/flag mappings are inverse; C02: documented "
-           "outer forms) and do not add up to a necessary condition worth a separate claim.",
-}
+NOT_APPLICABLE = {}
 
 
 def load_table():
